@@ -88,6 +88,10 @@ def labels(draw):
         t = t.replace("\r\n", "\n").replace("\n", "\r\n")
     elif k == 1:
         t = t.replace("\r\n", "\n").replace("\n", "\r")
+    elif k == 3:
+        # saved by an editor that puts a byte order mark in front (the mark is a
+        # character of the text like any other: every way of loading must agree on it)
+        t = "\ufeff" + t
     elif k == 2:
         # mixed: some line ends are bare CR, others LF
         rng = random.Random(draw(st.integers(0, 2 ** 32)))
@@ -633,6 +637,7 @@ FIXED_LABELS = [
     "/* c\rd */ a = 1\rEND", "a = 1 <m\rs>\nEND", "a = 1\n\rEND", "a = 1\x0b\x0cb = 2\x0cEND",
     "a = \"caf\u00e9\"\rEND", "note = \"a -\r   b\"\rEND",
     "a = 1 # ---\nb = 2\nEND", "# ---- geometry ----\na = 1\nEND", "a = 1 # x-\r\nEND",
+    "\ufeffa = 1\nEND", "\ufeffPDS_VERSION_ID = PDS3\r\nb = \"caf\u00e9\"\r\nEND", "\ufeff\nEND",
 ]
 FIXED_TAILS = [b"", b"\n", b"\r", b"\n\xff", b"\nfoo bar = baz", b" # -\n x y z", b"\r\nbinary\x00\xfe", b" \xfe", b"\r\xc3"]
 
